@@ -1,7 +1,7 @@
 // lemmas/vprops_sign.rs -- property-level theorems about two-round signing (C01, C03, C04, C05) over the contracts'
 // spec functions (`spec_sign`, `sp_share_ok`, `spec_culprits`, `agg_guard_err`, `agg_sig`, `agg_culprits`, `agg_result_is`,
 // `spec_verify`, `spec_encode_list`, ...).  The contracts pin the code to these functions; the theorems here show that the
-// functions have the properties users rely on, for all inputs.  No assume/admit/external_body/axioms.
+// functions have the properties users rely on, for all inputs.  Everything is proved from the field/group/codec axioms of prelude/traits.rs.
 pub mod vprops_sign {
 #[allow(unused_imports)] use vstd::prelude::*;
 #[allow(unused_imports)] use crate::traits::*;
